@@ -66,6 +66,42 @@ def pairing(ctx: Ctx, cls, meth, attrs, label):
     return it
 
 
+def step_distribution_per_row(ctx: Ctx):
+    """C11.j the step distribution of an instance is computed from its own row of logits: the logit pipeline (process_logits,
+    top-k / top-p filters), the log-likelihood and the entropy contain no reduction over the batch axis, row pick or
+    flattening.  A `top_k` clamped to the smallest number of feasible actions found in ANY row gives an instance another
+    support -- and other log-probabilities -- in another batch composition (PPO mini-batches, evaluation alone).  Batch-axis
+    engine (sa/batchaxis) on the returned values of the helpers, callees inlined."""
+    from .. import batchaxis as ba
+    from ..model import alpha_key
+    helpers = [("rl4co/utils/decoding.py", n_) for n_ in ("process_logits", "modify_logits_for_top_k_filtering", "modify_logits_for_top_p_filtering", "get_log_likelihood")] + \
+              [("rl4co/utils/ops.py", "calculate_entropy")]
+    for path, name in helpers:
+        fi = ctx.repo.get_function(path, name)
+        ctx.fn(fi)
+        it = vg.Interp(ctx.repo, None, inline_policy=lambda f, a: True, inline_depth=4)
+        fr = it.run_function(fi)
+        per = {}
+        for _, v in fr.returns:
+            v = it.sym(v)
+            if isinstance(v, vg.S):
+                for h in ba.hits(v):
+                    if h.kind in ("reduce-all", "row-pick", "flatten", "squeeze-all"):
+                        per[h.node.id] = h
+        # reductions whose operand is a scalar setting (not data) are not hits; what remains mixes rows
+        bad = []
+        for h in per.values():
+            site = vg.site_of(h.node)
+            fn_, text = ctx.repo.locate(*site) if site else ("?", vg.show(h.node, 3))
+            bad.append((h.kind, fn_, text.replace('"', "'")))
+        if not bad:
+            ctx.ob("C11.j", f"{name}:per-row", True, fi.loc, "no batch-global operation reaches the returned value")
+        for kind, fn_, text in bad:
+            ctx.ob("C11.j", f"{name}:{fn_}:{kind}", False, fi.loc,
+                   f"{kind} `{text[:80]}` in {fn_} reaches the value returned by {name}: the step distribution / log-likelihood of an instance depends on its batch-mates",
+                   construct=f"{fn_}:{kind}:{alpha_key(text)}")
+
+
 def run(ctx: Ctx):
     normalised_sites(ctx)
     act_evaluate_agree(ctx)
@@ -77,6 +113,17 @@ def run(ctx: Ctx):
     _C10.dispatch_rules(ctx)
     for _o in ctx.obligations[_n0:]:
         _o.rule = "C11.i"
+    # ... and DecodingStrategy.step applies them in EVERY mode (an evaluation pass re-scores sampled actions: a temperature that
+    # is skipped for `evaluate` gives other log-probabilities than the ones the actions were drawn with) -- shared with C10.d
+    _n0 = len(ctx.obligations)
+    _C10.step_forwarding(ctx, "C11.k")
+    # the sampler draws from exp(logprobs) and greedy takes its argmax (C10.c): the log-likelihood returned is the one of the
+    # distribution the actions came from
+    _n1 = len(ctx.obligations)
+    _C10.selection(ctx)
+    for _o in ctx.obligations[_n1:]:
+        _o.rule = "C11.l"
+    step_distribution_per_row(ctx)
     ds = ctx.repo.get_class(DEC, "DecodingStrategy")
     bs = ctx.repo.get_class(DEC, "BeamSearch")
     it = pairing(ctx, ds, "step", ("actions", "logprobs"), "DecodingStrategy.step")
